@@ -362,3 +362,25 @@ Proof.
     rewrite (resolve_step_name gs i (chain_name gs src ops) op U Li Wn An Co).
     rewrite (IH src C A). unfold expected_walk, walk_cons. rewrite map_app, rev_app_distr. reflexivity.
 Qed.
+
+(* ---------------------------------------------------------------------------------------------------------- *)
+(* sub-columns                                                                                                 *)
+Lemma split_on_first : forall c b rest, contains c b = false ->
+  exists ps, split_on c (b ++ c :: rest) = b :: ps.
+Proof.
+  induction b as [|a b IH]; intros rest H.
+  - cbn [app split_on]. rewrite Ascii.eqb_refl. eauto.
+  - cbn in H. apply orb_false_iff in H as [H1 H2]. cbn [app split_on]. rewrite H1.
+    destruct (IH rest H2) as (ps & ->). eauto.
+Qed.
+
+Lemma column_base_tilde : forall b rest, contains tilde b = false -> column_base (b ++ tilde :: rest) = b.
+Proof. intros b rest H. unfold column_base. destruct (split_on_first tilde b rest H) as (ps & ->). reflexivity. Qed.
+
+Lemma column_base_plain : forall b, contains tilde b = false -> column_base b = b.
+Proof. intros b H. unfold column_base. rewrite (split_on_none tilde b H). reflexivity. Qed.
+
+(* the producer of `b` claims every name that starts with b~ — whatever follows, a column index or a whole chain *)
+Lemma root_claims_tilde : forall sup b rest, contains tilde b = false ->
+  root_claims sup (b ++ tilde :: rest) = existsb (str_eqb b) sup.
+Proof. intros sup b rest H. unfold root_claims. rewrite (column_base_tilde b rest H). reflexivity. Qed.
